@@ -54,6 +54,7 @@ def _case(draw, tier):
             keys = draw(st.lists(st.sampled_from(KEYS), max_size=4, unique=True))
             t["opts"] = [[k, draw(val)] for k in keys]
             t["run"] = "./probe.sh" if real else draw(st.sampled_from(["./run.sh", "python x.py", "./a.sh   -v"]))
+    graph.dedupe_names(case)
     # rel deps only valid inside one package: recompute forms
     for i, t in enumerate(case["tasks"]):
         for d in t["deps"]:
